@@ -16,10 +16,11 @@ func finish(ctx *common.Ctx, p *Prog) *Prog {
 	if ctx.Rng.Chance(25) && len(p.Code) > 0 && CountOps(p.Code[0]) < 60 {
 		p.Slow = ctx.Rng.Intn(len(p.Code))
 	}
-	for _, r := range p.Code {
-		if HasExit(r) {
-			p.Yield, p.Slow = 0, -1 // see HasExit
-		}
+	// one program in three: the routines' bodies are functions that nobody has called yet (routines with equal
+	// code share one): the forms are compiled in place by whichever routines get there first
+	p.Cold = ctx.Rng.Chance(33)
+	for i := range p.Code {
+		p.Code[i] = fixGoTags(ctx.Rng, p.Code[i], nil)
 	}
 	if p.Cells == nil {
 		p.Cells = []string{}
@@ -31,6 +32,31 @@ func finish(ctx *common.Ctx, p *Prog) *Prog {
 		p.Caps = []int{}
 	}
 	return p
+}
+
+// fixGoTags: (go b) checks only that SOME tagbody encloses it; a tag that none of the enclosing tagbodies has
+// would travel up to the top of the routine and end it without a report.  Such a go gets the tag of one of the
+// tagbodies around it (none around it: it stays what it is, a control-error).
+func fixGoTags(r *common.Rng, ops []Op, tags []int) []Op {
+	out := make([]Op, len(ops))
+	for k, o := range ops {
+		switch {
+		case o.Kind == "exit" && o.TB && len(tags) > 0:
+			found := false
+			for _, t := range tags {
+				found = found || t == o.B
+			}
+			if !found {
+				o.B = tags[r.Intn(len(tags))]
+			}
+		case o.Kind == "block" && o.TB:
+			o.Body = fixGoTags(r, o.Body, append(append([]int(nil), tags...), o.B))
+		case len(o.Body) > 0:
+			o.Body = fixGoTags(r, o.Body, tags)
+		}
+		out[k] = o
+	}
+	return out
 }
 
 func repeatOp(n int, f func(k int) Op) (ops []Op) {
@@ -167,11 +193,16 @@ func genCounter(ctx *common.Ctx, maxIncr int) *Prog {
 	ncell := 1 + r.Intn(2)
 	p := &Prog{Shape: "counter", NMutex: ncell}
 	for x := 0; x < ncell; x++ {
-		p.Cells = append(p.Cells, common.Pick(r, []string{"global", "clos", "flavor", "hash"}))
+		p.Cells = append(p.Cells, common.Pick(r, []string{"global", "clos", "flavor", "hash", "let", "let"}))
 		p.Mem = append(p.Mem, int64(r.Intn(5)))
 	}
 	p.Shape += "-" + p.Cells[0]
+	same := r.Chance(50) // every routine runs the same code (one shared function when the program is rendered Cold)
 	for i := 0; i < n; i++ {
+		if same && i > 0 {
+			p.Code = append(p.Code, append([]Op(nil), p.Code[0]...))
+			continue
+		}
 		p.Code = append(p.Code, repeatOp(per, func(k int) Op {
 			x := r.Intn(ncell)
 			return Incr(x, x, int64(1+r.Intn(3)))
@@ -185,7 +216,7 @@ func genUnguarded(ctx *common.Ctx, maxIncr int) *Prog {
 	r := ctx.Rng
 	n := 2 + r.Intn(4)
 	per := 1 + r.Intn(maxIncr)
-	kind := common.Pick(r, []string{"global", "clos", "flavor"})
+	kind := common.Pick(r, []string{"global", "clos", "flavor", "let"})
 	p := &Prog{Shape: "unguarded-" + kind, Mem: []int64{0}, Cells: []string{kind}}
 	for i := 0; i < n; i++ {
 		var ops []Op
@@ -201,7 +232,7 @@ func genUnguarded(ctx *common.Ctx, maxIncr int) *Prog {
 func genErrors(ctx *common.Ctx) *Prog {
 	r := ctx.Rng
 	n := 1 + r.Intn(4)
-	kind := common.Pick(r, []string{"global", "clos", "flavor", "hash"})
+	kind := common.Pick(r, []string{"global", "clos", "flavor", "hash", "let"})
 	p := &Prog{Shape: "errors", NMutex: 2, Mem: []int64{0}, Cells: []string{kind}, Caps: []int{1 + r.Intn(2)}}
 	for i := 0; i < n; i++ {
 		var ops []Op
@@ -257,7 +288,7 @@ func genDeadlock(ctx *common.Ctx) *Prog {
 // the same one) take the mutexes afterwards
 func genExits(ctx *common.Ctx) *Prog {
 	r := ctx.Rng
-	kind := common.Pick(r, []string{"global", "clos", "flavor"})
+	kind := common.Pick(r, []string{"global", "clos", "flavor", "let"})
 	p := &Prog{Shape: "exits", NMutex: 2, Mem: []int64{0}, Cells: []string{kind}}
 	nblock := 0
 	exitForm := func(rid int) Op {
@@ -269,7 +300,7 @@ func genExits(ctx *common.Ctx) *Prog {
 			inner = append([]Op{Store(0, lit(int64(10+r.Intn(80))))}, inner...)
 		}
 		if r.Chance(25) {
-			inner = append(inner, Store(0, lit(int64(100+r.Intn(50))))) // not the last form: slip carries on (C07)
+			inner = append(inner, Store(0, lit(int64(100+r.Intn(50))))) // not the last form: skipped, the exit leaves from any position
 		}
 		heldM1 := false
 		wrap := func(x []Op, allowM1 bool) []Op {
@@ -336,7 +367,7 @@ func genSoup(ctx *common.Ctx) *Prog {
 		p.Caps = append(p.Caps, r.Intn(3))
 	}
 	for x := 0; x < ncell; x++ {
-		p.Cells = append(p.Cells, common.Pick(r, []string{"global", "clos", "flavor"}))
+		p.Cells = append(p.Cells, common.Pick(r, []string{"global", "clos", "flavor", "let"}))
 		p.Mem = append(p.Mem, int64(r.Intn(3)))
 	}
 	nr := 2 + r.Intn(3)
@@ -438,7 +469,7 @@ func stressPipe(ctx *common.Ctx) *Prog {
 func stressCounter(ctx *common.Ctx) *Prog {
 	r := ctx.Rng
 	p := &Prog{Shape: "stress-counter", NMutex: 2, Mem: []int64{0, 7},
-		Cells: []string{common.Pick(r, []string{"global", "clos", "flavor", "hash"}), common.Pick(r, []string{"global", "clos", "flavor", "hash"})}}
+		Cells: []string{common.Pick(r, []string{"global", "clos", "flavor", "hash", "let"}), common.Pick(r, []string{"global", "clos", "flavor", "hash", "let"})}}
 	for i := 0; i < 8; i++ {
 		p.Code = append(p.Code, repeatOp(66, func(k int) Op {
 			x := r.Intn(2)
